@@ -117,7 +117,7 @@ P = {
         "C14_stored_text_positions via from_sparse_spec. FTAB/FTAB_ARGC are regenerated from src/utils.rs on every run "
         "(tools/gen_tables.py) and proved equal to a frozen reference copy (regression pin). Totality: "
         "C14_no_panic_parse_formula_xls/_xlsb (every byte string), C14_no_panic_xlsb_read_names / _xls_read_names, C14_no_panic_a1. "
-        "Known classes K_PTGEXP (shared / array formula members read as \"\") and K_XLS_NAME_FORMULA with refutations. Tie: hooks "
+        "C14_defined_name_text_is_render_xls (every Lbl formula that encodes a well-formed AST is reported as its rendering). One known class K_PTGEXP (shared / array formula members read as \"\") with refutation. Tie: hooks "
         "push_column / both parse_formula / A1 helpers (exhaustive column sweep, random ASTs, malformed rgce with outcome "
         "prediction) and generated .xlsb, .xls, .xlsx and .ods files through worksheet_formula on every sheet and defined_names.",
    note=TB + " f64 display is a Section variable; <> OutOfFuel for the two decoders on arbitrary input is not proved. Table translator: tools/gen_tables.py (fail-closed regex extraction).",
@@ -192,9 +192,10 @@ P = {
         "anywhere, leaves its outcome unchanged; induction over the record list + fuel irrelevance); C03_cell_table(_values) for "
         "every interpreted record kind incl. the four BrtFmla kinds and BrtRowHdr; RK theorems incl. the xlsb/xls difference; "
         "C03_sst_roundtrip; C03_xlsb_sheet_main / _workbook_main: for every logical sheet and every legal encoding (record kind per "
-        "value, RK forms vs BrtCellReal, framing forms, ignorable records anywhere, BrtWsDim exact or wrong, empty rows, any trailer) "
-        "the model of worksheet_range_ref + from_sparse returns range_of sheet, via from_sparse_spec, unbounded. One known class "
-        "(wsdim_absent) with refutation lemma. Tie: hook on the record framing, generated .xlsb packages (tools/xlsbgen.py) through "
+        "value, RK forms vs BrtCellReal, framing forms, ignorable records anywhere, BrtWsDim absent, exact or wrong, empty rows, any trailer, rows in any order) "
+        "the model of worksheet_range_ref + from_sparse returns range_of sheet, via from_sparse_spec, unbounded; BrtWsDim absent is a "
+        "legal layout too (no known class left: wsdim_absent repaired in /repo by 011a4fd). Totality: C03_no_panic_framing / _header / "
+        "_reader / _cell_loop / _sst / _range_ref / _workbook (every byte string). Tie: hook on the record framing, generated .xlsb packages (tools/xlsbgen.py) through "
         "Xlsb::new + worksheet_range(_ref), malformed parts with panic prediction.",
    note=TB + " zip/XML parts of the package, styles.bin parsing beyond the format table, next_formula/parse_formula (C14) are outside this model; "
         "ranges above ~300k cells are skipped on the model side (counted).",
@@ -325,7 +326,7 @@ def main():
 
 # properties whose model is being brought up to date with fix: commits that just landed in /repo (their check
 # reports the stale model as a broken correspondence until the resync is merged); emptied as the resyncs land
-STALE = {"C01", "C15", "C17"}
+STALE = set()
 STALE_REASON = ("temporarily not claimed: a shared model file this slice imports (Col26.v / Range.v) was just re-synchronised with the "
                 "hardened code and the slice's bridge lemmas are being re-proved against it; until that is merged the slice's proof "
                 "files do not all compile")
